@@ -26,10 +26,10 @@ pub static DEF: CheckDef = CheckDef {
     generate,
     execute,
     shrink,
-    rule: "each run = 2..12 real nodes in one of 7 topologies, request timeout from {300 ms, 1 s, 3 s}, 3..30 client operations (network lookup, find_node, put, get, ping RPC) spread over the nodes with start offsets in 0..2 x timeout so that several are in flight per node while the node also serves inbound requests; 0..4 peers turned silent at offsets 0..3 x timeout (some permanently, some healing); 0..2 nodes stopped at offsets 0..3 x timeout; bound per operation = 30 x (dial timeout + request timeout) + 5 s, bound for stop() = (peers + 3) x request timeout + 5 s; non-trivial = at least two operations overlapped on one node and a silence or stop fell inside an operation; distinct = distinct hash of the completion log",
+    rule: "each run = 2..12 real nodes in one of 7 topologies, request timeout from {300 ms, 1 s, 3 s}, yield rate at lock acquisitions from {0, 0, 1/16, 1/4, 1/2, 200/256}, 3..30 client operations (network lookup, find_node, put, get, ping RPC, connect to a further peer) spread over the nodes with start offsets in 0..2 x timeout so that several are in flight per node while the node also serves inbound requests; 0..4 peers turned silent at offsets 0..3 x timeout (some permanently, some healing); 0..2 nodes stopped at offsets 0..3 x timeout; bound per operation = 30 x (dial timeout + request timeout) + 5 s, bound for stop() = (peers + 3) x request timeout + 5 s; non-trivial = at least two operations overlapped on one node and a silence or stop fell inside an operation; distinct = distinct hash of the completion log",
     real_components: &["DhtNetworkManager (client operations, inbound handler with semaphore, stop/leave, maintenance and event tasks)", "DhtCoreEngine (locks shared by client and handler paths)", "TransportHandle up to the seam"],
     stubbed_components: &["ant-quic: in-memory network with seeded latency, silence and healing"],
-    assumptions: &["operations a caller starts on a node after its stop() returned are the caller's doing and are not generated", "interleavings are those of a current-thread runtime permuted by seeded latencies, start offsets and tokio's seeded scheduler randomness"],
+    assumptions: &["operations a caller starts on a node after its stop() returned are the caller's doing and are not generated", "interleavings are those of a current-thread runtime permuted by seeded latencies, start offsets, seeded yields at the manager's lock acquisitions (rate 0..200/256 per run) and tokio's seeded scheduler randomness"],
 };
 
 fn generate(seed: u64, tier: Tier) -> Value {
@@ -42,8 +42,22 @@ fn generate(seed: u64, tier: Tier) -> Value {
     let nops = r.range(3, if tier == Tier::Quick { 20 } else { 30 });
     let mut ops = Vec::new();
     for i in 0..nops {
-        ops.push(json!({"o": i, "node": r.below(n), "kind": *r.pick(&["lookup", "lookup", "find_node", "put", "put", "get", "get", "ping"]), "start_ms": r.below(2 * timeout_ms),
+        ops.push(json!({"o": i, "node": r.below(n), "kind": *r.pick(&["lookup", "lookup", "find_node", "put", "put", "get", "get", "ping", "connect", "connect"]), "start_ms": r.below(2 * timeout_ms),
                         "key_salt": r.below(6), "to": r.below(n), "count": *r.pick(&[1u64, 8, 20]), "len": *r.pick(&[0u64, 10, 512])}));
+    }
+    // connections that do not exist yet, each with lookups on both ends around the same instant:
+    // the peer-connected handler then runs while lookups sit between their two lock sections
+    let have: std::collections::BTreeSet<(u64, u64)> = edges.iter().map(|e| { let (a, b) = (e[0].as_u64().unwrap_or(0), e[1].as_u64().unwrap_or(0)); (a.min(b), a.max(b)) }).collect();
+    for _ in 0..r.below(4) {
+        let (a, b) = (r.below(n), r.below(n));
+        if a == b || have.contains(&(a.min(b), a.max(b))) { continue; }
+        let at = r.below(2 * timeout_ms);
+        let o = ops.len() as u64;
+        ops.push(json!({"o": o, "node": a, "kind": "connect", "start_ms": at, "key_salt": 0, "to": b, "count": 8, "len": 0}));
+        for (j, end) in [a, b, a, b].iter().enumerate() {
+            let o = ops.len() as u64;
+            ops.push(json!({"o": o, "node": end, "kind": if j < 2 { "local_burst" } else { *r.pick(&["lookup", "find_node", "get"]) }, "start_ms": at + (j as u64 / 2) * r.below(4), "key_salt": r.below(6), "to": r.below(n), "count": 8, "len": 0}));
+        }
     }
     let mut silence = Vec::new();
     for _ in 0..r.below(5) {
@@ -69,7 +83,7 @@ fn generate(seed: u64, tier: Tier) -> Value {
     }
     json!({"property": "C20", "seed": seed, "net_seed": r.below(1 << 40), "n": n, "topology": topo, "edges": edges, "ident": if r.chance(2, 3) { "a" } else { "b" },
            "k": *r.pick(&[3u64, 8, 8, 20]), "timeout_ms": timeout_ms, "nodes": nodes, "ops": ops,
-           "faults": {"silence": [], "slow": [], "drops": [], "dial": []}, "silence_at": silence, "stops": stops, "liars": [],
+           "faults": {"silence": [], "slow": [], "drops": [], "dial": []}, "silence_at": silence, "stops": stops, "liars": [], "yield_rate": *r.pick(&[0u64, 0, 16, 64, 128, 200]),
            "latency_ms": *r.pick(&[1u64, 5, 20]), "jitter_ms": *r.pick(&[0u64, 3, 30])})
 }
 
@@ -89,12 +103,16 @@ fn execute(sc: &Value) -> RunReport {
     let seed = sc["seed"].as_u64().unwrap_or(0);
     let rt = sim_runtime(seed);
     let mut ctx = Ctx::new();
+    // seeded yields at every lock acquisition of the DHT manager (per 256), so tasks interleave between two lock sections
+    let yield_rate = sc["yield_rate"].as_u64().unwrap_or(0) as u32;
     rt.block_on(async {
         let (net, nodes) = match build_world(sc, false).await {
             Ok(x) => x,
             Err(e) => { ctx.harness_error = Some(format!("build_world: {e}")); return; }
         };
         let n = nodes.len();
+        saorsa_core::verif_hooks::set_yield_points(yield_rate, seed ^ 0x79656c64);
+        if yield_rate > 0 { ctx.fault("seeded_yield_points"); }
         let t_ms = sc["timeout_ms"].as_u64().unwrap_or(1000);
         let dial_ms = t_ms.min(5000);
         let b_op = 30 * (dial_ms + t_ms) + 5000;
@@ -123,6 +141,7 @@ fn execute(sc: &Value) -> RunReport {
             let mut to = (q["to"].as_u64().unwrap_or(0) as usize) % n;
             if to == node { to = (to + 1) % n; }
             let peer = tids[to].clone();
+            let peer_addr = nodes[to].addr.to_string();
             let mgr = nodes[node].manager.clone();
             let log = log.clone();
             let net2 = net.clone();
@@ -139,6 +158,10 @@ fn execute(sc: &Value) -> RunReport {
                         "find_node" => mgr.find_node(&key).await.map(|r| simnet::result_name(&r).to_string()).map_err(|e| e.to_string()),
                         "put" => mgr.put(key, value).await.map(|r| simnet::result_name(&r).to_string()).map_err(|e| e.to_string()),
                         "get" => mgr.get(&key).await.map(|r| simnet::result_name(&r).to_string()).map_err(|e| e.to_string()),
+                        // a first-time connection while other work is in flight: the peer-connected handler runs concurrently
+                        // the local address-book lookup every millisecond for 80 ms (it is documented as safe to call from handlers)
+                        "local_burst" => { for _ in 0..80 { let _ = mgr.find_closest_nodes_local(&key, count).await; tokio::time::sleep(Duration::from_millis(1)).await; } Ok("burst done".to_string()) }
+                        "connect" => mgr.connect_to_peer(&peer_addr).await.map(|_| "connected".to_string()).map_err(|e| e.to_string()),
                         _ => mgr.send_request(&peer, DhtNetworkOperation::Ping).await.map(|r| simnet::result_name(&r).to_string()).map_err(|e| e.to_string()),
                     }
                 };
@@ -233,6 +256,7 @@ fn execute(sc: &Value) -> RunReport {
         net.shutdown();
     });
     drop(rt);
+    saorsa_core::verif_hooks::set_yield_points(0, 0);
     for k in ["ops_overlapped_on_a_node", "fault_inside_operation", "stop_with_ops_in_flight"] { ctx.probes.entry(k.to_string()).or_insert(0); }
     ctx.finish()
 }
